@@ -71,8 +71,15 @@ def entry_line(e):
     if t == 'IGNORE':
         return 'IGNORE %s' % esc_path(e['path'])
     parts = [t, esc_path(e['path']), str(e['size'])]
+    # (checksum fields may come in any order on a line; '_sum_order' lets a
+    # generator write them in another one than the alphabetical default)
+    order = e.get('_sum_order') or sorted(e['sums'])
+    for k in order:
+        if k in e['sums']:
+            parts += [k, e['sums'][k]]
     for k in sorted(e['sums']):
-        parts += [k, e['sums'][k]]
+        if k not in order:
+            parts += [k, e['sums'][k]]
     return ' '.join(parts)
 
 
